@@ -8,6 +8,15 @@ C21 translator half: ``gen_Naming(repo) -> str`` renders as Lean data (Gen/Namin
 * ``intraLoops``: for each SDK target the naming functions that ``_verify_intra_structure_collisions``
   applies inside ``for x in our_type.literals / .properties / .methods``, in source order;
 * ``intraReturnsError``: whether ``_verify_intra_structure_collisions`` returns the ``Error`` it builds;
+* ``globalChecks``: for each SDK target the dictionaries of the other ``_verify_<kind>_collisions`` functions called by
+  ``verify`` (constants, verification functions, ...): per function the loops over ``symbol_table.<collection>`` with the
+  naming function they apply;
+* ``intraDerived``: names derived from a member name inside those loops (``Identifier(f"set_{prop.name}_from_jsonable")``);
+* ``modelTypeReserved``: whether ``_verify_structure_name_collisions`` looks up the name of the generated ``ModelType``
+  enumeration, ``modelTypeLiteralsReserved``: golang also registers the names of its literals (global constants);
+  ``jsonPropertiesChecked`` / ``xsdSequenceChecked``: the ``_define_properties`` of the schema generators
+  report two properties with one JSON / XML name; ``xsdTypesShared``: ``xs:simpleType`` and ``xs:complexType`` are observed
+  in one symbol space;
 * ``modelTypeChecked``: whether ``jsonschema.main.generate`` looks at the result of
   ``definitions.update({"ModelType": ...})`` and returns it as an error;
 * ``jsonDefinitionsChecked`` / ``xsdObservedChecked``: the ``if key in self._definitions: return Error``
@@ -21,7 +30,7 @@ import ast
 import pathlib
 from typing import Any, Dict, List, Optional, Tuple
 
-from harness.extract import HEADER, ExtractError, _func, _parse, lean_text
+from harness.extract import HEADER, ExtractError, _class, _func, _parse, lean_text
 
 SDK = ["cpp", "csharp", "golang", "java", "python", "typescript"]
 NAMING_MODULES = [("naming", "aas_core_codegen/naming.py")] + [
@@ -210,21 +219,165 @@ def naming_tables(repo: pathlib.Path) -> Tuple[Dict[str, Dict[str, Any]], List[s
 
 LOOP_ATTRS = {"literals": "literal", "properties": "prop", "methods": "method"}
 
+# (repo, target) -> [(line, kind, naming function, pre, post)]: names DERIVED from a member name inside the intra loops
+# (`<t>_naming.<fn>(Identifier(f"<pre>{x.name}<post>"))`), each kept in a dictionary of its own; filled by `intra_loops`
+INTRA_DERIVED: Dict[Tuple[str, str], List[Tuple[int, str, str, str, str]]] = {}
+
+
+def intra_derived(repo: pathlib.Path, target: str) -> List[Tuple[str, str, str, str]]:
+    intra_loops(repo, target)
+    return [(k, f"{target}.{f}", pre, post) for _, k, f, pre, post in sorted(INTRA_DERIVED[(str(repo), target)])]
+
+
+# ---- following calls of helper functions of the same module
+#
+# A check may be written inline or be spread over module-level helpers (`errors.extend(helper(...))`,
+# `errors += helper(...)`, `error = helper(...); if error is not None: errors.append(error)`): the extraction walks a
+# function in source order and enters such a helper at the call site (up to MAX_HELPER_DEPTH levels), carrying along
+# which parameter of the helper stands for `our_type` / `symbol_table`.
+
+MAX_HELPER_DEPTH = 3
+
+
+def _top_functions(mod: ast.Module) -> Dict[str, ast.FunctionDef]:
+    return {n.name: n for n in mod.body if isinstance(n, ast.FunctionDef)}
+
+
+def _parent_map(fn: ast.AST) -> Dict[int, ast.AST]:
+    out: Dict[int, ast.AST] = {}
+    for node in ast.walk(fn):
+        for child in ast.iter_child_nodes(node):
+            out[id(child)] = node
+    return out
+
+
+def _sink_of(fn: ast.FunctionDef) -> str:
+    """The name of the error list of a function: the list-valued name it returns, `errors` otherwise."""
+    lists = set()
+    for node in ast.walk(fn):
+        if isinstance(node, (ast.Assign, ast.AnnAssign)) and isinstance(getattr(node, "value", None), ast.List):
+            tgt = node.targets[0] if isinstance(node, ast.Assign) else node.target
+            if isinstance(tgt, ast.Name):
+                lists.add(tgt.id)
+    for node in ast.walk(fn):
+        if isinstance(node, ast.Return) and isinstance(node.value, ast.Name) and node.value.id in lists:
+            return node.value.id
+    return "errors"
+
+
+def _is_sink_call(node: ast.AST, sink: str, arg: ast.AST) -> bool:
+    return (
+        isinstance(node, ast.Call)
+        and isinstance(node.func, ast.Attribute)
+        and node.func.attr in ("extend", "append")
+        and isinstance(node.func.value, ast.Name)
+        and node.func.value.id == sink
+        and any(a is arg for a in node.args)
+    )
+
+
+def _flows_into_errors(fn: ast.FunctionDef, call: ast.Call, parents: Dict[int, ast.AST], sink: str) -> bool:
+    """The result of `call` ends up in the error list `sink` of `fn`."""
+    par = parents.get(id(call))
+    if _is_sink_call(par, sink, call):
+        return True
+    if isinstance(par, ast.AugAssign) and isinstance(par.op, ast.Add) and isinstance(par.target, ast.Name) and par.target.id == sink and par.value is call:
+        return True
+    if isinstance(par, (ast.Assign, ast.AnnAssign)) and par.value is call:
+        tgt = par.targets[0] if isinstance(par, ast.Assign) and len(par.targets) == 1 else getattr(par, "target", None)
+        if isinstance(tgt, ast.Name):
+            v = tgt.id
+            for n in ast.walk(fn):
+                if isinstance(n, ast.Call) and any(isinstance(a, ast.Name) and a.id == v and _is_sink_call(n, sink, a) for a in n.args):
+                    return True
+                if (
+                    isinstance(n, ast.AugAssign) and isinstance(n.op, ast.Add) and isinstance(n.target, ast.Name)
+                    and n.target.id == sink and isinstance(n.value, ast.Name) and n.value.id == v
+                ):
+                    return True
+    return False
+
+
+def _bind_aliases(helper: ast.FunctionDef, call: ast.Call, aliases: Dict[str, str]) -> Dict[str, str]:
+    params = [a.arg for a in helper.args.posonlyargs + helper.args.args]
+    out: Dict[str, str] = {}
+    for i, a in enumerate(call.args):
+        if isinstance(a, ast.Name) and a.id in aliases and i < len(params):
+            out[params[i]] = aliases[a.id]
+    for kw in call.keywords:
+        if kw.arg is not None and isinstance(kw.value, ast.Name) and kw.value.id in aliases:
+            out[kw.arg] = aliases[kw.value.id]
+    return out
+
+
+def _creates_dicts(fn: ast.FunctionDef) -> List[str]:
+    out = []
+    for node in ast.walk(fn):
+        value = getattr(node, "value", None)
+        if isinstance(node, (ast.Assign, ast.AnnAssign)) and (
+            (isinstance(value, ast.Call) and _callee_name(value.func) == "dict" and not value.args and not value.keywords)
+            or (isinstance(value, ast.Call) and _callee_name(value.func) == "dict" and len(value.args) == 1
+                and isinstance(value.args[0], ast.Call) and _callee_name(value.args[0].func) == "dict" and not value.args[0].args)
+            or (isinstance(value, ast.Dict) and not value.keys)
+        ):
+            tgt = node.targets[0] if isinstance(node, ast.Assign) else node.target
+            if isinstance(tgt, ast.Name) and tgt.id not in out:
+                out.append(tgt.id)
+    return out
+
+
+def _sequence(
+    funcs: Dict[str, ast.FunctionDef], fn: ast.FunctionDef, aliases: Dict[str, str], depth: int, skip: Tuple[str, ...], chain: Tuple[str, ...]
+) -> List[Tuple[ast.AST, ast.FunctionDef, Dict[str, str], Tuple[str, ...]]]:
+    """The nodes of `fn` in source order (pre-order); a call of a function of the same module whose result flows into
+    the error list of `fn` is entered right at the call. Items: (node, owning function, aliases there, call chain)."""
+    parents = _parent_map(fn)
+    sink = _sink_of(fn)
+    out: List[Tuple[ast.AST, ast.FunctionDef, Dict[str, str], Tuple[str, ...]]] = []
+
+    def rec(node: ast.AST) -> None:
+        out.append((node, fn, aliases, chain))
+        if (
+            depth > 0
+            and isinstance(node, ast.Call)
+            and isinstance(node.func, ast.Name)
+            and node.func.id in funcs
+            and node.func.id not in skip
+            and node.func.id not in chain
+            and _flows_into_errors(fn, node, parents, sink)
+        ):
+            helper = funcs[node.func.id]
+            out.extend(_sequence(funcs, helper, _bind_aliases(helper, node, aliases), depth - 1, skip, chain + (helper.name,)))
+        for child in ast.iter_child_nodes(node):
+            rec(child)
+
+    for stmt in fn.body:
+        rec(stmt)
+    return out
+
+
+KIND_RANK = {"literal": 0, "prop": 1, "method": 2}
+
 
 def intra_loops(repo: pathlib.Path, target: str) -> Tuple[List[Tuple[str, str]], bool]:
     mod = _parse(repo, f"aas_core_codegen/{target}/lib/_generate_types.py")
+    funcs = _top_functions(mod)
     fn = _func(mod, "_verify_intra_structure_collisions")
-    loops: List[Tuple[str, str]] = []
-    for node in ast.walk(fn):
+    found: List[Tuple[int, int, str]] = []  # (kind rank, position, naming function)
+    derived: List[Tuple[int, str, str, str, str]] = INTRA_DERIVED.setdefault((str(repo), target), [])
+    derived.clear()
+    pos = 0
+    for node, owner, aliases, _chain in _sequence(funcs, fn, {"our_type": "our_type"}, MAX_HELPER_DEPTH, (), (fn.name,)):
         if (
             isinstance(node, ast.For)
             and isinstance(node.target, ast.Name)
             and isinstance(node.iter, ast.Attribute)
             and isinstance(node.iter.value, ast.Name)
-            and node.iter.value.id == "our_type"
+            and aliases.get(node.iter.value.id) == "our_type"
             and node.iter.attr in LOOP_ATTRS
         ):
             var = node.target.id
+            kind = LOOP_ATTRS[node.iter.attr]
             calls = []
             for sub in ast.walk(node):
                 if (
@@ -240,7 +393,24 @@ def intra_loops(repo: pathlib.Path, target: str) -> Tuple[List[Tuple[str, str]],
                 ):
                     calls.append((sub.lineno, sub.col_offset, sub.func.attr))
             for _, _, name in sorted(calls):
-                loops.append((LOOP_ATTRS[node.iter.attr], name))
+                pos += 1
+                found.append((KIND_RANK[kind], pos, name))
+            for sub in ast.walk(node):
+                if (
+                    isinstance(sub, ast.Call)
+                    and isinstance(sub.func, ast.Attribute)
+                    and isinstance(sub.func.value, ast.Name)
+                    and sub.func.value.id.endswith("_naming")
+                    and len(sub.args) == 1
+                    and _is_identifier_ctor(sub.args[0])
+                ):
+                    arg = _name_arg(sub.args[0], var)
+                    if arg is None:
+                        raise ExtractError(f"{target}: unknown derived name in _verify_intra_structure_collisions")
+                    pos += 1
+                    derived.append((pos, kind, sub.func.attr, arg[0], arg[1]))
+    rank_kind = {v: k for k, v in KIND_RANK.items()}
+    loops: List[Tuple[str, str]] = [(rank_kind[r], name) for r, _, name in sorted(found)]
     if not loops:
         raise ExtractError(f"{target}: no naming loops found in _verify_intra_structure_collisions")
     # Does the function return the error it builds?  (a `return <non-None>` somewhere)
@@ -260,6 +430,224 @@ def intra_loops(repo: pathlib.Path, target: str) -> Tuple[List[Tuple[str, str]],
         isinstance(n, ast.Call) and _callee_name(n.func) == "_verify_structure_name_collisions" for n in ast.walk(verify)
     )
     return loops, bool(returns_error and forwarded and calls_structure)
+
+
+GLOBAL_COLLS = {"constants", "verification_functions", "constrained_primitives", "enumerations", "classes", "concrete_classes"}  # + "classes_with_descendants" (guarded loop over classes)
+
+
+def _symbol_table_colls(node: ast.AST) -> Optional[List[str]]:
+    """``symbol_table.<coll>`` -> [coll]; ``itertools.chain(symbol_table.a, symbol_table.b)`` -> [a, b]."""
+    if isinstance(node, ast.Attribute) and isinstance(node.value, ast.Name) and node.value.id == "symbol_table":
+        return [node.attr]
+    if isinstance(node, ast.Call) and _callee_name(node.func) == "chain" and not node.keywords:
+        out: List[str] = []
+        for a in node.args:
+            sub = _symbol_table_colls(a)
+            if sub is None:
+                return None
+            out += sub
+        return out
+    return None
+
+
+def _name_arg(node: ast.AST, var: str) -> Optional[Tuple[str, str]]:
+    """``<var>.name`` -> ("", ""); ``Identifier(f"<pre>{<var>.name}<post>")`` -> (pre, post)."""
+
+    def is_var_name(n: ast.AST) -> bool:
+        return isinstance(n, ast.Attribute) and n.attr == "name" and isinstance(n.value, ast.Name) and n.value.id == var
+
+    if is_var_name(node):
+        return "", ""
+    if _is_identifier_ctor(node) and isinstance(node.args[0], ast.JoinedStr):  # type: ignore[attr-defined]
+        pre, post, found = "", "", False
+        for v in node.args[0].values:  # type: ignore[attr-defined]
+            if isinstance(v, ast.Constant) and isinstance(v.value, str):
+                if found:
+                    post += v.value
+                else:
+                    pre += v.value
+            elif isinstance(v, ast.FormattedValue) and not found and v.conversion == -1 and v.format_spec is None and is_var_name(v.value):
+                found = True
+            else:
+                return None
+        if found:
+            return pre, post
+    return None
+
+
+def _guard_of(loop: ast.For, call: ast.AST, var: str) -> Optional[str]:
+    """The class `C` when `call` sits in the body of an `if isinstance(<var>, intermediate.C):` directly in the loop
+    body; None when it sits directly in the loop body; any other conditional nesting is not understood."""
+    for stmt in loop.body:
+        if not any(n is call for n in ast.walk(stmt)):
+            continue
+        if not isinstance(stmt, (ast.If, ast.For, ast.While, ast.Try, ast.With)):
+            return None
+        if (
+            isinstance(stmt, ast.If)
+            and not stmt.orelse
+            and isinstance(stmt.test, ast.Call)
+            and _callee_name(stmt.test.func) == "isinstance"
+            and len(stmt.test.args) == 2
+            and isinstance(stmt.test.args[0], ast.Name)
+            and stmt.test.args[0].id == var
+            and isinstance(stmt.test.args[1], ast.Attribute)
+            and any(s2 is not stmt.test and any(n is call for n in ast.walk(s2)) and not isinstance(s2, (ast.If, ast.For, ast.While, ast.Try, ast.With)) for s2 in stmt.body)
+        ):
+            return stmt.test.args[1].attr
+        raise ExtractError("a naming call of a collision check sits in a conditional that is not understood")
+    raise ExtractError("naming call not found in the loop body")
+
+
+def _concrete_descendants_guard(first: Optional[ast.AST], var: str) -> bool:
+    """`if len(<var>.concrete_descendants) == 0: continue`"""
+    return (
+        isinstance(first, ast.If)
+        and not first.orelse
+        and len(first.body) == 1
+        and isinstance(first.body[0], ast.Continue)
+        and isinstance(first.test, ast.Compare)
+        and len(first.test.ops) == 1
+        and isinstance(first.test.ops[0], ast.Eq)
+        and isinstance(first.test.comparators[0], ast.Constant)
+        and first.test.comparators[0].value == 0
+        and isinstance(first.test.left, ast.Call)
+        and _callee_name(first.test.left.func) == "len"
+        and len(first.test.left.args) == 1
+        and isinstance(first.test.left.args[0], ast.Attribute)
+        and first.test.left.args[0].attr == "concrete_descendants"
+        and isinstance(first.test.left.args[0].value, ast.Name)
+        and first.test.left.args[0].value.id == var
+    )
+
+
+def _colls_of(node: ast.AST, aliases: Dict[str, str]) -> Optional[List[str]]:
+    """``<symbol table>.<coll>`` -> [coll]; ``itertools.chain(<symbol table>.a, <symbol table>.b)`` -> [a, b]."""
+    if isinstance(node, ast.Attribute) and isinstance(node.value, ast.Name) and aliases.get(node.value.id) == "symbol_table":
+        return [node.attr]
+    if isinstance(node, ast.Call) and _callee_name(node.func) == "chain" and not node.keywords:
+        out: List[str] = []
+        for a in node.args:
+            sub = _colls_of(a, aliases)
+            if sub is None:
+                return None
+            out += sub
+        return out
+    return None
+
+
+HAND_MODELLED = ("_verify_structure_name_collisions", "_verify_intra_structure_collisions")
+
+
+def global_checks(repo: pathlib.Path, target: str) -> List[Tuple[str, List[Tuple[str, ...]]]]:
+    """The dictionaries of the collision checks that ``verify`` runs over collections of the symbol table beside
+    ``_verify_structure_name_collisions``: every function of the module whose result flows into the error list of
+    ``verify`` (directly or through helpers) and that owns a dictionary; per dictionary, in source order (helpers entered
+    at their call), the loops ``for x in symbol_table.<coll>`` with the naming function applied to ``x.name`` /
+    ``Identifier(f"<pre>{x.name}<post>")``.  A helper without a dictionary of its own feeds the dictionary of its caller.
+    The label of a dictionary is derived from its first loop (not from a function name)."""
+    mod = _parse(repo, f"aas_core_codegen/{target}/lib/_generate_types.py")
+    funcs = _top_functions(mod)
+    verify = _func(mod, "verify")
+    returns_errors = any(
+        isinstance(n, ast.Return) and isinstance(n.value, ast.Tuple) and len(n.value.elts) == 2
+        and isinstance(n.value.elts[1], ast.Name) and n.value.elts[1].id == _sink_of(verify)
+        for n in ast.walk(verify)
+    )
+    if not returns_errors:
+        return []
+    dict_owner: Dict[Tuple[str, ...], Optional[Tuple[str, ...]]] = {("verify",): None}
+    order: List[Tuple[str, ...]] = []
+    loops_of: Dict[Tuple[str, ...], List[Tuple[str, ...]]] = {}
+    for node, owner, aliases, chain in _sequence(
+        funcs, verify, {"symbol_table": "symbol_table"}, MAX_HELPER_DEPTH, HAND_MODELLED, ("verify",)
+    ):
+        if chain not in dict_owner:
+            created = _creates_dicts(owner)
+            if len(created) > 1:
+                raise ExtractError(f"{target}.{owner.name}: expected at most one dictionary, found {created}")
+            dict_owner[chain] = chain if created else dict_owner.get(chain[:-1])
+        if not (isinstance(node, ast.For) and isinstance(node.target, ast.Name)):
+            continue
+        colls = _colls_of(node.iter, aliases)
+        if colls is None:
+            continue
+        name = owner.name
+        for c in colls:
+            if c not in GLOBAL_COLLS:
+                raise ExtractError(f"{target}.{name}: unknown collection symbol_table.{c}")
+        colls = list(colls)
+        var = node.target.id
+        # `if len(<var>.concrete_descendants) == 0: continue` as the first statement: only the classes with
+        # concrete descendants
+        first = node.body[0] if node.body else None
+        if _concrete_descendants_guard(first, var):
+            if colls != ["classes"]:
+                raise ExtractError(f"{target}.{name}: concrete_descendants guard over {colls}")
+            colls = ["classes_with_descendants"]
+        elif any(isinstance(n, ast.Continue) for n in ast.walk(node)):
+            raise ExtractError(f"{target}.{name}: unknown `continue` guard in the loop over {colls}")
+        sink = _sink_of(owner)
+        appends = any(
+            isinstance(n, ast.Call) and isinstance(n.func, ast.Attribute) and n.func.attr == "append"
+            and isinstance(n.func.value, ast.Name) and n.func.value.id == sink
+            for n in ast.walk(node)
+        )
+        # `Identifier(f"<opre>{<naming call>}<opost>")` around a naming call (e.g. `Verify{class_name(x.name)}`)
+        outer: Dict[int, Tuple[str, str]] = {}
+        for sub in ast.walk(node):
+            if _is_identifier_ctor(sub) and isinstance(sub.args[0], ast.JoinedStr):  # type: ignore[attr-defined]
+                opre, opost, inner_call = "", "", None
+                ok = True
+                for v in sub.args[0].values:  # type: ignore[attr-defined]
+                    if isinstance(v, ast.Constant) and isinstance(v.value, str):
+                        if inner_call is None:
+                            opre += v.value
+                        else:
+                            opost += v.value
+                    elif isinstance(v, ast.FormattedValue) and inner_call is None and isinstance(v.value, ast.Call) and v.conversion == -1 and v.format_spec is None:
+                        inner_call = v.value
+                    else:
+                        ok = False
+                if ok and inner_call is not None:
+                    outer[id(inner_call)] = (opre, opost)
+        calls = []
+        for sub in ast.walk(node):
+            if (
+                isinstance(sub, ast.Call)
+                and isinstance(sub.func, ast.Attribute)
+                and isinstance(sub.func.value, ast.Name)
+                and sub.func.value.id.endswith("_naming")
+                and len(sub.args) == 1
+            ):
+                arg = _name_arg(sub.args[0], var)
+                if arg is not None:
+                    calls.append((sub.lineno, sub.col_offset, sub.func.attr, arg, outer.get(id(sub), ("", "")), _guard_of(node, sub, var)))
+        if not calls or not appends:
+            raise ExtractError(f"{target}.{name}: loop over {colls} without a naming call / an error")
+        key = dict_owner[chain]
+        if key is None:
+            raise ExtractError(f"{target}.{name}: a loop over {colls} outside any dictionary")
+        if key not in loops_of:
+            loops_of[key] = []
+            order.append(key)
+        for ln, col, f, (pre, post), (opre, opost), guard in sorted(calls):
+            for c in colls:
+                if guard is not None:
+                    if (c, guard) != ("verification_functions", "PatternVerification"):
+                        raise ExtractError(f"{target}.{name}: isinstance guard {guard} in the loop over {c}")
+                    c = "pattern_verification_functions"
+                loops_of[key].append((c, f"{target}.{f}", pre, post, opre, opost))
+    out: List[Tuple[str, List[Tuple[str, ...]]]] = []
+    for key in order:
+        loops = loops_of[key]
+        owner_fn = funcs[key[-1]]
+        sink = _sink_of(owner_fn)
+        if not any(isinstance(n, ast.Return) and isinstance(n.value, ast.Name) and n.value.id == sink for n in ast.walk(owner_fn)):
+            raise ExtractError(f"{target}.{owner_fn.name}: does not return its errors")
+        label = f"{loops[0][0]}:{loops[0][1].split('.', 1)[1]}"
+        out.append((label, loops))
+    return out
 
 
 def model_type_checked(repo: pathlib.Path) -> bool:
@@ -293,15 +681,40 @@ def model_type_checked(repo: pathlib.Path) -> bool:
 
 
 def definitions_checked(repo: pathlib.Path) -> bool:
+    """``Definitions.update_for`` / ``update`` (with the methods of the class they call through ``self``) stop at a key that
+    is already ``in`` the definitions — a plain membership test, nothing tolerated — and return an ``Error``."""
     mod = _parse(repo, "aas_core_codegen/jsonschema/main.py")
+    cls = _class(mod, "Definitions")
+    methods = {n.name: n for n in cls.body if isinstance(n, ast.FunctionDef)}
+
+    def nodes_with_helpers(fn: ast.FunctionDef, depth: int, seen: Tuple[str, ...]) -> List[ast.AST]:
+        out = list(ast.walk(fn))
+        if depth > 0:
+            for n in list(out):
+                if (
+                    isinstance(n, ast.Call) and isinstance(n.func, ast.Attribute) and isinstance(n.func.value, ast.Name)
+                    and n.func.value.id == "self" and n.func.attr in methods and n.func.attr not in seen
+                ):
+                    out += nodes_with_helpers(methods[n.func.attr], depth - 1, seen + (n.func.attr,))
+        return out
+
     for name in ("update_for", "update"):
-        fn = _func(mod, name)
-        ok = False
-        for node in ast.walk(fn):
-            if isinstance(node, ast.If) and isinstance(node.test, ast.Compare) and isinstance(node.test.ops[0], ast.In):
-                if any(isinstance(n, ast.Return) and n.value is not None for b in node.body for n in ast.walk(b)):
-                    ok = True
-        if not ok:
+        if name not in methods:
+            raise ExtractError(f"Definitions.{name} not found")
+        fn = methods[name]
+        nodes = nodes_with_helpers(fn, 2, (name,))
+        stops = False
+        for node in nodes:
+            if isinstance(node, ast.If) and isinstance(node.test, ast.Compare) and len(node.test.ops) == 1 and isinstance(node.test.ops[0], ast.In):
+                if any(
+                    isinstance(n, ast.Return) and n.value is not None and not (isinstance(n.value, ast.Constant) and n.value.value is None)
+                    for b in node.body for n in ast.walk(b)
+                ):
+                    stops = True
+        returns_error = any(
+            isinstance(n, ast.Return) and isinstance(n.value, ast.Call) and _callee_name(n.value.func) == "Error" for n in ast.walk(fn)
+        )
+        if not (stops and returns_error):
             return False
     return True
 
@@ -322,6 +735,183 @@ def xsd_observed_checked(repo: pathlib.Path) -> bool:
             ]
             if appends:
                 return True
+    return False
+
+
+def model_type_reserved(repo: pathlib.Path, target: str) -> bool:
+    """`_verify_structure_name_collisions` looks the name `<t>_naming.enum_name(Identifier("Model_type"))` up in its
+    dictionary of structure names and appends an error."""
+    mod = _parse(repo, f"aas_core_codegen/{target}/lib/_generate_types.py")
+    fn = _func(mod, "_verify_structure_name_collisions")
+    nodes = [
+        n for n, _, _, _ in _sequence(
+            _top_functions(mod), fn, {"symbol_table": "symbol_table"}, MAX_HELPER_DEPTH, ("_verify_intra_structure_collisions",), (fn.name,)
+        )
+    ]
+    var: Optional[str] = None
+    for node in nodes:
+        if isinstance(node, ast.Assign) and len(node.targets) == 1 and isinstance(node.targets[0], ast.Name):
+            call = node.value
+            if (
+                isinstance(call, ast.Call)
+                and isinstance(call.func, ast.Attribute)
+                and call.func.attr == "enum_name"
+                and len(call.args) == 1
+                and _is_identifier_ctor(call.args[0])
+                and isinstance(call.args[0].args[0], ast.Constant)  # type: ignore[attr-defined]
+                and call.args[0].args[0].value == "Model_type"  # type: ignore[attr-defined]
+            ):
+                var = node.targets[0].id
+    if var is None:
+        return False
+    # <dict>.get(var, None) assigned to `other`; `if other is not None: errors.append(...)`
+    looked: Optional[str] = None
+    for node in nodes:
+        if isinstance(node, ast.Assign) and len(node.targets) == 1 and isinstance(node.targets[0], ast.Name):
+            call = node.value
+            if (
+                isinstance(call, ast.Call)
+                and isinstance(call.func, ast.Attribute)
+                and call.func.attr == "get"
+                and call.args
+                and isinstance(call.args[0], ast.Name)
+                and call.args[0].id == var
+            ):
+                looked = node.targets[0].id
+    if looked is None:
+        return False
+    for node in nodes:
+        if isinstance(node, ast.If) and any(isinstance(n, ast.Name) and n.id == looked for n in ast.walk(node.test)):
+            if any(
+                isinstance(n, ast.Call) and isinstance(n.func, ast.Attribute) and n.func.attr == "append"
+                and isinstance(n.func.value, ast.Name) and isinstance(n.args[0] if n.args else None, ast.Call)
+                and _callee_name(n.args[0].func) == "Error"
+                for b in node.body for n in ast.walk(b)
+            ):
+                return True
+    return False
+
+
+def model_type_literals_reserved(repo: pathlib.Path) -> bool:
+    """golang `_verify_structure_name_collisions` walks `symbol_table.concrete_classes`, looks
+    `enum_literal_name(Identifier("Model_type"), cls.name)` up in the dictionary of the structure names, appends an error
+    for a name that is there and registers it otherwise."""
+    mod = _parse(repo, "aas_core_codegen/golang/lib/_generate_types.py")
+    fn = _func(mod, "_verify_structure_name_collisions")
+    for node, _owner, aliases, _chain in _sequence(
+        _top_functions(mod), fn, {"symbol_table": "symbol_table"}, MAX_HELPER_DEPTH, ("_verify_intra_structure_collisions",), (fn.name,)
+    ):
+        if not (isinstance(node, ast.For) and isinstance(node.target, ast.Name) and _colls_of(node.iter, aliases) == ["concrete_classes"]):
+            continue
+        var = node.target.id
+        named = any(
+            isinstance(n, ast.Call) and isinstance(n.func, ast.Attribute) and n.func.attr == "enum_literal_name"
+            and len(n.args) == 2 and _is_identifier_ctor(n.args[0]) and isinstance(n.args[0].args[0], ast.Constant)  # type: ignore[attr-defined]
+            and n.args[0].args[0].value == "Model_type" and _name_arg(n.args[1], var) == ("", "")  # type: ignore[attr-defined]
+            for n in ast.walk(node)
+        )
+        appends = any(
+            isinstance(n, ast.Call) and isinstance(n.func, ast.Attribute) and n.func.attr == "append"
+            and isinstance(n.func.value, ast.Name) and n.args and isinstance(n.args[0], ast.Call) and _callee_name(n.args[0].func) == "Error"
+            for n in ast.walk(node)
+        )
+        registers = any(
+            isinstance(n, ast.Assign) and isinstance(n.targets[0], ast.Subscript) and isinstance(n.value, ast.Name) and n.value.id == var
+            for n in ast.walk(node)
+        )
+        if named and appends and registers:
+            return True
+    return False
+
+
+def _props_checked(repo: pathlib.Path, rel: str, naming_fn: str) -> bool:
+    """`_define_properties` of a schema generator keeps a dictionary of the `naming.<naming_fn>(prop.name)` of ALL
+    `cls.properties` and appends an error for a name that is already there (before any `continue`)."""
+    mod = _parse(repo, rel)
+    fn = _func(mod, "_define_properties")
+    for node in ast.walk(fn):
+        if not (
+            isinstance(node, ast.For) and isinstance(node.target, ast.Name) and isinstance(node.iter, ast.Attribute)
+            and node.iter.attr == "properties" and isinstance(node.iter.value, ast.Name) and node.iter.value.id == "cls"
+        ):
+            continue
+        var = node.target.id
+        name_var: Optional[str] = None
+        for i, stmt in enumerate(node.body):
+            if any(isinstance(n, ast.Continue) for n in ast.walk(stmt)) and name_var is None:
+                return False
+            if isinstance(stmt, ast.Assign) and len(stmt.targets) == 1 and isinstance(stmt.targets[0], ast.Name):
+                call = stmt.value
+                if (
+                    isinstance(call, ast.Call) and isinstance(call.func, ast.Attribute) and call.func.attr == naming_fn
+                    and isinstance(call.func.value, ast.Name) and call.func.value.id == "naming"
+                    and len(call.args) == 1 and _name_arg(call.args[0], var) == ("", "")
+                ):
+                    name_var = stmt.targets[0].id
+                    rest = node.body[i + 1 :]
+                    # ... = <dict>.get(name_var, None); if ... is not None: errors.append(...)
+                    looked = None
+                    for st in rest:
+                        if any(isinstance(n, ast.Continue) for n in ast.walk(st)) and looked is None:
+                            return False
+                        if isinstance(st, ast.Assign) and isinstance(st.value, ast.Call) and isinstance(st.value.func, ast.Attribute) \
+                                and st.value.func.attr == "get" and st.value.args and isinstance(st.value.args[0], ast.Name) \
+                                and st.value.args[0].id == name_var and isinstance(st.targets[0], ast.Name):
+                            looked = st.targets[0].id
+                        elif looked is not None and isinstance(st, ast.If) and any(
+                            isinstance(n, ast.Name) and n.id == looked for n in ast.walk(st.test)
+                        ):
+                            return any(
+                                isinstance(n, ast.Call) and isinstance(n.func, ast.Attribute) and n.func.attr == "append"
+                                and isinstance(n.func.value, ast.Name) and n.func.value.id == "errors"
+                                for b in st.body for n in ast.walk(b)
+                            )
+                    return False
+        return False
+    raise ExtractError(f"{rel}: no loop over cls.properties in _define_properties")
+
+
+def json_properties_checked(repo: pathlib.Path) -> bool:
+    return _props_checked(repo, "aas_core_codegen/jsonschema/main.py", "json_property")
+
+
+def xsd_sequence_checked(repo: pathlib.Path) -> bool:
+    return _props_checked(repo, "aas_core_codegen/xsd/main.py", "xml_property")
+
+
+def xsd_types_shared(repo: pathlib.Path) -> bool:
+    """The `observed_definitions` of `xsd.main._generate` are keyed by a symbol space that is the same for
+    `xs:simpleType` and `xs:complexType` (not by the bare tag)."""
+    mod = _parse(repo, "aas_core_codegen/xsd/main.py")
+    fn = _func(mod, "_generate")
+    for node in ast.walk(fn):
+        if isinstance(node, ast.For) and isinstance(node.iter, ast.Name) and node.iter.id == "root":
+            key_var: Optional[str] = None
+            for sub in ast.walk(node):
+                if (
+                    isinstance(sub, ast.Call) and isinstance(sub.func, ast.Attribute) and sub.func.attr == "get"
+                    and isinstance(sub.func.value, ast.Name) and sub.func.value.id == "observed_definitions" and sub.args
+                ):
+                    a = sub.args[0]
+                    if isinstance(a, ast.Name):
+                        key_var = a.id
+                    else:
+                        return False  # keyed by `element.tag`
+            if key_var is None:
+                return False
+            for sub in ast.walk(node):
+                if isinstance(sub, ast.If) and isinstance(sub.test, ast.Compare) and len(sub.test.ops) == 1 and isinstance(sub.test.ops[0], ast.In):
+                    comp = sub.test.comparators[0]
+                    if isinstance(comp, (ast.Tuple, ast.List, ast.Set)) and sorted(
+                        e.value for e in comp.elts if isinstance(e, ast.Constant)
+                    ) == ["xs:complexType", "xs:simpleType"]:
+                        if any(
+                            isinstance(n, ast.Assign) and isinstance(n.targets[0], ast.Name) and n.targets[0].id == key_var
+                            and isinstance(n.value, ast.Constant)
+                            for b in sub.body for n in ast.walk(b)
+                        ):
+                            return True
+            return False
     return False
 
 
@@ -368,6 +958,40 @@ def gen_Naming(repo: pathlib.Path) -> str:
     lines.append("]")
     lines.append("")
     lines.append("def intraReturnsError : List (String × Bool) := [" + ", ".join(flags) + "]")
+    lines.append("")
+    lines.append("def globalChecks : List (String × List (String × List CheckLoop)) := [")
+    items = []
+    for t in SDK:
+        dicts = []
+        for kind, loops in global_checks(repo, t):
+            ls = ", ".join(
+                f"⟨{_lean_str(c)}, {_lean_str(f)}, {lean_text(pre)}, {lean_text(post)}, {lean_text(opre)}, {lean_text(opost)}⟩"
+                for c, f, pre, post, opre, opost in loops
+            )
+            dicts.append(f"({_lean_str(kind)}, [{ls}])")
+        items.append(f"  ({_lean_str(t)}, [" + ",\n    ".join(dicts) + "])")
+    lines.append(",\n".join(items))
+    lines.append("]")
+    lines.append("")
+    lines.append("def intraDerived : List (String × List (String × CheckLoop)) := [")
+    items = []
+    for t in SDK:
+        ls = ", ".join(
+            f"({_lean_str(k)}, ⟨\"members\", {_lean_str(f)}, {lean_text(pre)}, {lean_text(post)}, [], []⟩)" for k, f, pre, post in intra_derived(repo, t)
+        )
+        items.append(f"  ({_lean_str(t)}, [{ls}])")
+    lines.append(",\n".join(items))
+    lines.append("]")
+    lines.append("")
+    lines.append(
+        "def modelTypeReserved : List (String × Bool) := ["
+        + ", ".join(f"({_lean_str(t)}, {_lean_bool(model_type_reserved(repo, t))})" for t in SDK)
+        + "]"
+    )
+    lines.append(f"def modelTypeLiteralsReserved : Bool := {_lean_bool(model_type_literals_reserved(repo))}")
+    lines.append(f"def jsonPropertiesChecked : Bool := {_lean_bool(json_properties_checked(repo))}")
+    lines.append(f"def xsdSequenceChecked : Bool := {_lean_bool(xsd_sequence_checked(repo))}")
+    lines.append(f"def xsdTypesShared : Bool := {_lean_bool(xsd_types_shared(repo))}")
     lines.append(f"def modelTypeChecked : Bool := {_lean_bool(model_type_checked(repo))}")
     lines.append(f"def jsonDefinitionsChecked : Bool := {_lean_bool(definitions_checked(repo))}")
     lines.append(f"def xsdObservedChecked : Bool := {_lean_bool(xsd_observed_checked(repo))}")
